@@ -154,6 +154,63 @@ def declare_unknown_callees(src, frontend, X):
     return src[:k] + "\n".join(decls) + "\n" + src[k:], notes
 
 
+def havoc_typed_lets(src, frontend):
+    """R5-auto (let): a statement `let NAME: TYPE = EXPR;` whose initialiser contains a construct outside the verifier's dialect (an iterator chain, a closure it cannot
+    type) is replaced by `let NAME: TYPE = verif_nondet_val::<TYPE>();` - any value of that type.  Sound for proofs (every value is explored) and it keeps an edited
+    function decidable.  Only lets WITH a type annotation qualify (the type must be known).  Returns (new_src, [descriptions]) or (None, [])."""
+    bsrc = src.encode("utf-8")
+    toks = extract.code_tokens(src)
+    edits = []
+    for fe in frontend:
+        off = len(bsrc[:fe["byte_start"]].decode("utf-8", "ignore"))
+        best = None
+        for idx, (kind, s, e) in enumerate(toks):
+            if s > off:
+                break
+            if not (kind == "ident" and src[s:e] == "let"):
+                continue
+            # let [mut] NAME : TYPE = EXPR ;
+            j = idx + 1
+            if j < len(toks) and src[toks[j][1]:toks[j][2]] == "mut":
+                j += 1
+            if j + 1 >= len(toks) or toks[j][0] != "ident" or src[toks[j + 1][1]] != ":":
+                continue
+            name = src[toks[j][1]:toks[j][2]]
+            depth, eq, end = 0, None, None
+            for k in range(j + 2, len(toks)):
+                ch = src[toks[k][1]]
+                if toks[k][0] != "punct":
+                    continue
+                if ch in "([{<" and not (ch == "<" and eq is not None):
+                    depth += 1
+                elif ch in ")]}>" and not (ch == ">" and eq is not None):
+                    depth -= 1
+                    if depth < 0:
+                        break
+                elif ch == "=" and depth == 0 and eq is None and src[toks[k][1]:toks[k][1] + 2] not in ("==", "=>"):
+                    eq = k
+                elif ch == ";" and depth == 0:
+                    end = k
+                    break
+            if eq is None or end is None or not (toks[eq][2] <= off < toks[end][1]):
+                continue
+            ty = src[toks[j + 1][2]:toks[eq][1]].strip()
+            best = (toks[eq][2], toks[end][1], name, ty)
+        if best and best[:2] not in [(a, b) for a, b, _, _ in edits]:
+            edits.append(best)
+    if not edits:
+        return None, []
+    out = src
+    for a, b, name, ty in sorted(edits, reverse=True):
+        out = out[:a] + " verif_nondet_val::<%s>()" % ty + out[b:]
+    if "fn verif_nondet_val" not in out:
+        k = out.rfind("} // verus!")
+        if k < 0:
+            return None, []
+        out = out[:k] + "#[verifier::external_body] pub fn verif_nondet_val<T>() -> T { unimplemented!() }\n" + out[k:]
+    return out, ["R5-auto: initialiser of `let %s: %s` is outside the verifier's dialect; replaced by an unconstrained value of that type" % (n, t) for _, _, n, t in edits]
+
+
 def desugar_destructuring_assign(src):
     """R13-auto: a destructuring assignment statement `(A, B, ..) = EXPR;` (not supported by Verus) is desugared the way rustc does:
     `let (verif_d0, verif_d1, ..) = EXPR; A = verif_d0; B = verif_d1; ..`."""
@@ -326,6 +383,8 @@ def run_unit(name, tier):
         new_src, notes = declare_unknown_callees(cur, r["frontend"], b["X"])
         if new_src is None:
             new_src, notes = havoc_conditions(cur, r["frontend"])
+        if new_src is None:
+            new_src, notes = havoc_typed_lets(cur, r["frontend"])
         if new_src is None:
             break
         with open(b["path"], "w", encoding="utf-8") as f:
